@@ -302,7 +302,8 @@ class DIMSEServiceProvider:
                     args=(d_primitive, context_id),
                 )
                 t.start()
-            else:
+            elif not isinstance(d_primitive, C_CANCEL):
+                # Any C-CANCEL requests over the limit are ignored
                 self.msg_queue.put((context_id, cast(DimseServiceType, d_primitive)))
 
             # Fix for memory leak, Issue #41
